@@ -31,6 +31,7 @@ double rng_R = 10.0;
 int32_t stub_uniform_int(void *dist, void *engine, const int32_t *param) UNIFORM_NAME;
 double stub_normal(void *dist, void *engine, const double *param) NORMAL_NAME;
 
+#if STUB_ON(stub_uniform_int)
 int32_t stub_uniform_int(void *dist, void *engine, const int32_t *param) {
     int32_t lo = param[0], hi = param[1];
     int32_t v = nondet_i32();
@@ -41,7 +42,9 @@ int32_t stub_uniform_int(void *dist, void *engine, const int32_t *param) {
     }
     return v;
 }
+#endif
 
+#if STUB_ON(stub_normal)
 double stub_normal(void *dist, void *engine, const double *param) {
     double mean = param[0], sigma = param[1];
     double e = nondet_f64();
@@ -52,4 +55,5 @@ double stub_normal(void *dist, void *engine, const double *param) {
     }
     return mean + e;   /* rng_dval logs the returned value */
 }
+#endif
 }
